@@ -55,6 +55,11 @@ func checkNotAnEnum(node schema.Node, value bytes.Bytes) {
 		return
 	}
 
+	// The example of a node of type "any" says nothing about the values.
+	if node.Constraint(constraint.AnyConstraintType) != nil {
+		return
+	}
+
 	jsonType := json.Guess(value).LiteralJsonType() // can panic
 	schemaType := node.Type()
 	if !(jsonType == schemaType ||
